@@ -32,6 +32,8 @@ def gen_body(rng, depth, budget):
             variant = rng.choice(["typeguard", "beartype", "dataclass", "method"]) if style == "new" else rng.choice(["typeguard", "beartype"])
             params = [gen_check(rng)[1:] for _ in range(rng.choice([0, 1, 1, 2]))]
             exit_ = rng.choice(["return", "return", "raise", "raisebase", "generator"])
+            if exit_ == "generator" and style in ("new", "none") and rng.random() < .4:
+                variant = "coro"           # an async def driven by hand: created, advanced to a real suspension, observed there, finished
             if exit_ == "generator" and style == "old":
                 variant = "typeguard"      # old-style + beartype on a generator function is broken in the pinned baseline itself (test_generators_*[False-beartype] always fail)
             node = ["call", style, rng.random() > .08, params, gen_body(rng, depth + 1, budget), exit_, variant]
@@ -67,6 +69,9 @@ def catalogue():
     for exit_ in ("return", "raise", "raisebase"):
         out.append([["context", probe + [["try", [["context", [["check", "n", [7]], ["observe"]], exit_]]]] + after, "return"], ["observe"]])
         out.append([["try", [["context", [["check", "n", [7]]], exit_]]], ["observe"], ["check", "n", [8]], ["observe"]])
+    for style in ("new", "none"):
+        out.append([["context", probe + [["call", style, True, [["n m", [4, 2]]], [["check", "n", [4]], ["observe"]], "generator", "coro"]] + after, "return"], ["observe"]])
+        out.append([["call", style, True, [["m", [5]]], [["check", "m", [5]], ["observe"]], "generator", "coro"], ["check", "m", [6]], ["observe"]])
     out.append([["check", "n", [3]], ["check", "n", [4]], ["observe"]])
     return out
 
